@@ -119,3 +119,12 @@ fn dump_spec(spec: &A2mlTypeSpec, out: &mut String) {
         }
     }
 }
+
+/// the block-level comments kept inside a MODULE: (uid, line, start_offset, text)
+pub fn module_comments(module: &crate::Module) -> Vec<(u32, u32, u32, String)> {
+    module
+        .a2lcomment
+        .iter()
+        .map(|c| (c.uid, c.line, c.start_offset, c.comment.clone()))
+        .collect()
+}
